@@ -15,6 +15,10 @@ A case is a route list plus a handful of requests:
                                   xhr / request_method / path_info / request_param / header / accept / is_authenticated /
                                   effective_principals with their falsy but meaningful values too (False, "", []); value
                                   null = the keyword passed as None (no predicate)
+         | ["w", op, key, value]  a predicate that WRITES into info['match'] and answers True: op "set" (match[key] = value),
+                                  "del" (match.pop(key)), "upper" (rewrite the capture in upper case); like the built-in
+                                  `traverse=` pseudo-predicate (["b", "traverse", pattern], which injects a 'traverse' key).  The
+                                  write belongs to that route's own dictionary: it shows in the result iff that route is selected
          | ["q", [bool…]]         opaque predicate whose outcome differs from request to request (indexed by the position
                                   of the request in "reqs"): the same mapper / application answers all of them
   INTENT = what the author of the pattern meant, token by token (independent of _compile_route's parsing):
@@ -384,7 +388,43 @@ def pred_value(p, env, req):
         return p[1][req.get('tag', 0) % len(p[1])]
     if p[0] == 'b':
         return True if p[2] is None else builtin_truth(p[1], p[2], req)
+    if p[0] == 'w':
+        return True
     raise ValueError(p)
+
+
+def route_writes(r):
+    """what the predicates of this route write into ITS match dictionary, in predicate order"""
+    ops = []
+    for p in r['preds']:
+        if p[0] == 'w':
+            ops.append((p[1], p[2], p[3]))
+        elif p[0] == 'b' and p[1] == 'traverse' and p[2] is not None:
+            ops.append(('settuple', 'traverse', spec_split(p[2])))
+    return ops
+
+
+def apply_writes(env, ops):
+    """env: canonical [[name, 's'|'t', value]…]"""
+    d = {n: [k, v] for n, k, v in env}
+    for op, key, val in ops:
+        if op == 'set':
+            d[key] = ['s', val]
+        elif op == 'settuple':
+            d[key] = ['t', list(val)]
+        elif op == 'del':
+            d.pop(key, None)
+        elif op == 'upper' and key in d and d[key][0] == 's':
+            d[key] = ['s', d[key][1].upper()]
+    return sorted([n, kv[0], kv[1]] for n, kv in d.items())
+
+
+def with_writes(case, out):
+    """the dictionary the application sees: the selected route's captures plus what that route's own predicates wrote"""
+    if not isinstance(out, dict):
+        return out
+    ops = route_writes(case['routes'][out['id']]) if 0 <= out['id'] < len(case['routes']) else []
+    return {'id': out['id'], 'match': apply_writes(out['match'], ops)} if ops else out
 
 
 def _seq(v):
@@ -421,6 +461,8 @@ def builtin_truth(kw, value, req):
         return value == False                  # noqa: E712  (0 == False as in the code)
     if kw == 'effective_principals':           # no policy: the principals are [Everyone]
         return len(_seq(value)) == 0
+    if kw == 'traverse':                       # a pseudo-predicate: always true (it injects the 'traverse' key)
+        return True
     raise ValueError(kw)
 
 
@@ -501,7 +543,9 @@ def expected(case, req):
             r = case['routes'][i]
             sp = all_splits(effective_intent(case, r), path)
             if sp and all(pred_value(p, sp[0], req) for p in r['preds']):
-                return {'out': {'id': i, 'match': canon_env(sp[0])}, 'splits': [canon_env(e) for e in sp]}
+                ops = route_writes(r)
+                return {'out': {'id': i, 'match': apply_writes(canon_env(sp[0]), ops)},
+                        'splits': [apply_writes(canon_env(e), ops) for e in sp]}
         return {'out': 'none'}
     except TooBig:
         return None
@@ -588,6 +632,9 @@ def impl_mapper(case):
         elif p[0] == 'q':
             def f(info, request):
                 log.append([rid, k]); return p[1][request.environ['vf.tag'] % len(p[1])]
+        elif p[0] == 'w':
+            def f(info, request):
+                log.append([rid, k]); write_match(info['match'], p[1], p[2], p[3]); return True
         else:
             real = RequestMethodPredicate(p[1], None) if p[0] == 'm' else AcceptPredicate(p[1], None) if p[0] == 'a' \
                 else HeaderPredicate(p[1], None)
@@ -662,6 +709,15 @@ def impl_mapper(case):
             'statics': [ids[id(r)] for r in mapper.static_routes], 'outs': outs, 'nmatch': nmatch, 'history': history, 'history_calls': history_calls}
 
 
+def write_match(m, op, key, val):
+    if op == 'set':
+        m[key] = val
+    elif op == 'del':
+        m.pop(key, None)
+    elif op == 'upper' and isinstance(m.get(key), str):
+        m[key] = m[key].upper()
+
+
 class VfPred:
     """route predicate factory used for the Router modes: value = (rid, k, kind, a, b)"""
     def __init__(self, val, config):
@@ -678,6 +734,9 @@ class VfPred:
             return a
         if kind == 'q':
             return a[request.environ['vf.tag'] % len(a)]
+        if kind == 'w':
+            write_match(info['match'], a[0], a[1], b)
+            return True
         return info['match'].get(a) == b
 
 
@@ -696,7 +755,9 @@ def impl_router(case):
     def declare_one(config, rid, r):
         kw = {}
         for k, p in enumerate(r['preds']):
-            if p[0] in ('c', 'e', 'q'):
+            if p[0] == 'w':
+                kw['vf%d' % k] = (rid, k, 'w', (p[1], p[2]), p[3])
+            elif p[0] in ('c', 'e', 'q'):
                 kw['vf%d' % k] = (rid, k, p[0], tuple(p[1]) if p[0] == 'q' else p[1], p[2] if len(p) > 2 else None)
             elif p[0] == 'm':
                 kw['request_method'] = p[1]
@@ -751,7 +812,7 @@ def impl_router(case):
     holder_root = Root()
     try:
         config = Configurator(route_prefix=case.get('top_prefix'))
-        for k in range(4):
+        for k in range(6):
             config.add_route_predicate('vf%d' % k, VfPred)
         declare(config, list(enumerate(case['routes'])), 0)
         config.add_view(rec)
@@ -846,7 +907,7 @@ def wire_pred(p, req):
         return ['c', bool(p[1])]
     if p[0] == 'e':
         return ['e', codes(p[1]), codes(p[2])]
-    if p[0] in ('m', 'a'):
+    if p[0] in ('m', 'a', 'w'):
         return ['c', bool(pred_value(p, None, req))]
     if p[0] == 'q':
         return ['c', bool(p[1][req.get('tag', 0) % len(p[1])])]
@@ -975,8 +1036,8 @@ def check_case(case, replies=None):
             if not router and (mo['routelist'] != got['routelist'] or mo['statics'] != got['statics']):
                 mism.append({'case': dict(case, reqs=[req]), 'impl': {'routelist': got['routelist'], 'statics': got['statics']},
                              'model': {'routelist': mo['routelist'], 'statics': mo['statics']}}); continue
-            m_out = decode_model_out(mo['outcome'])
-            m_spec = decode_model_out(mo['spec'])
+            m_out = with_writes(case, decode_model_out(mo['outcome']))
+            m_spec = with_writes(case, decode_model_out(mo['spec']))
             pi['model'] = m_out
             if m_out != g or m_spec != m_out:
                 mism.append({'case': dict(case, reqs=[req]), 'impl': g, 'model': {'outcome': m_out, 'spec': m_spec}}); continue
@@ -1235,6 +1296,7 @@ BUILTIN_VALUES = {
     'accept': [None, [], 'text/html', ['text/html', 'application/json']],
     'is_authenticated': [None, False, True, 0],
     'effective_principals': [None, [], 'a', ['a']],
+    'traverse': [None, '', '/t', '/t/fixed'],
 }
 
 
@@ -1340,6 +1402,34 @@ def gen_case(rng, mode=None, malformed=False):
         else:
             intent = gen_intent(rng)
         routes.append(mk_route(rng, 'r%d' % k, intent, router))
+    if rng.random() < 0.3:
+        # several routes with the IDENTICAL pattern string: the earlier ones write into their match dictionary (custom
+        # predicate, or the built-in traverse= in Router modes) and are then passed over by a failing predicate — the later,
+        # selected route must still see only its own captures
+        cands = [x for x in routes if x['intent'] is not None and not x['static']]
+        if cands:
+            base_r = rng.choice(cands)
+            at = routes.index(base_r)
+            phs = [t[1] for t in base_r['intent'] if t[0] != 'lit']
+            for c in range(rng.choice([1, 1, 2])):
+                r = rng.random()
+                if r < 0.3 or not phs:
+                    w = ['w', 'set', rng.choice(['_added', 'traverse'] if not router else ['_added']), 'leak']
+                elif r < 0.5:
+                    w = ['w', 'set', rng.choice(phs), 'leak']
+                elif r < 0.7:
+                    w = ['w', 'del', rng.choice(phs), None]
+                elif r < 0.85 or not router:
+                    w = ['w', 'upper', rng.choice(phs), None]
+                else:
+                    w = ['b', 'traverse', rng.choice(['/t', '/t/fixed', ''])]
+                fail = rng.choice([['c', False], ['c', False], ['q', [False, True]], ['c', True]])
+                clone = json.loads(json.dumps(base_r))
+                clone['name'] = 'k%d_%s' % (c, base_r['name'])
+                clone['preds'] = [w, fail]
+                clone.pop('extras', None)
+                routes.insert(at, clone)
+            n = len(routes)
     if mode == 'mapper' and n >= 2 and rng.random() < 0.15:
         routes[-1]['name'] = routes[rng.randrange(n - 1)]['name']      # re-connect an existing name
     if mode == 'include':
@@ -1374,9 +1464,9 @@ def gen_case(rng, mode=None, malformed=False):
             if ex:
                 r['extras'] = ex
     case['reqs'] = gen_reqs(rng, routes, rng.choice([4, 6, 8]), [effective_intent(case, r) for r in routes])
-    if any(p[0] == 'b' and p[1] == 'path_info' and p[2] is not None for r in routes for p in r['preds']):
+    if any(p[0] == 'b' and p[1] in ('path_info', 'traverse') and p[2] is not None for r in routes for p in r['preds']):
         for q in case['reqs']:
-            if q['path'] is None:                # the path_info predicate reads PATH_INFO itself
+            if q['path'] is None:                # the path_info predicate, and traversal under a 'traverse' key, read PATH_INFO
                 q['path'] = ''
     feasible(case)
     return case
